@@ -88,14 +88,24 @@ class World:
 
     # ---- outcomes of a pulse -----------------------------------------------------------------
     def outcomes(self, dev):
-        if self.dev[dev]["target"] == "playfield":
-            return ["ok", "silent", "fallback", "none", "slow"]
-        return ["ok", "fallback", "none", "slow"]
+        out = ["ok", "silent", "fallback", "none", "slow"] if self.dev[dev]["target"] == "playfield" else ["ok", "fallback", "none", "slow"]
+        if not self.dev[dev].get("switches"):
+            out.remove("none")      # a device without ball switches cannot see that its ball stayed: not judged
+        return out
 
     def resolve(self, outcome):
         dev = self.kicks.pop(0)
-        cfg = self.dev[dev]
         self.log.append(("kick", round(self.loop.time(), 3), dev, outcome))
+        self.leave(dev, outcome)
+
+    def plunge(self, dev, outcome):
+        """The player launches the ball of a mechanical plunger (no coil involved)."""
+        assert self.at[dev] > 0
+        self.log.append(("plunge", round(self.loop.time(), 3), dev, outcome))
+        self.leave(dev, outcome)
+
+    def leave(self, dev, outcome):
+        cfg = self.dev[dev]
         if outcome == "none" or self.at[dev] == 0:
             self.failed_kicks[dev] += 1
             return
@@ -105,6 +115,7 @@ class World:
             self.failed_kicks[dev] += 1
             self._travel(dev, dev, self.spec.get("fallback_time", 0.6), None)
             return
+        self.failed_kicks[dev] = 0
         tgt = cfg["target"]
         fast = self.spec["pf_time"] if tgt == "playfield" else self.spec["transit_time"]
         t = fast if outcome in ("ok", "silent") else cfg["eject_timeout"] + 1.0
